@@ -162,7 +162,9 @@ def run(ck: vlib.Check):
     cases = []
     hows = {}
     fixed = [(n_, b) for n_, b in SC.fixtures() if "scx" in n_][:(1 if ck.tier == "quick" else 3)] + \
-            [("synthetic-empty", SC.MapGen(random.Random(5), "editor", nloc=0, all_sections=True, ntrig=1).build())]
+            [("synthetic-empty", SC.MapGen(random.Random(5), "editor", nloc=0, all_sections=True, ntrig=1).build()),
+             ("synthetic-full-mrgn", SC.MapGen(random.Random(6), "editor", nloc=255, all_sections=True, ntrig=1, loc_density=1.0,
+                                               uprp_prefilled=True, swnm_density=1.0).build())]
     for c in boundary_cases(fixed):
         cases.append(c)
         hows["boundary"] = hows.get("boundary", 0) + 1
